@@ -1,8 +1,9 @@
 ------------------------------ MODULE DnsNameTrace ------------------------------
 (* Abs oracle of C19 (name decoding) as a trace specification.  One event per layout run on the real decoder:  *)
-(*   {"e":"Name","cut":c,"cells":[...],"res":"ok"|"err"|"crash"|"hang","name":[[cell,len],...],"end":n}          *)
-(* `name` is the decoded name as the list of (cell that holds the label, label length) - the driver recovers     *)
-(* it from the letters of the decoded labels; a label it cannot attribute is logged as [0, len].                 *)
+(*   {"e":"Name","cut":c,"start":s,"cells":[...],"res":"ok"|"err"|"crash"|"hang","name":[[letter,len],...],"end":n} *)
+(* `name` is the decoded name as the list of (letter id of the label = DnsNameOps.Lid(cell), label length) - the  *)
+(* driver recovers it from the decoded labels; a label that is not one repeated letter is logged as [0, len].    *)
+(* Enumerated layouts start at cell 1; the generated deep compression chains start at their last link.           *)
 (* The event is accepted iff the result is one the Abs classification of the layout allows (DnsNameOps):         *)
 (* exact name and end offset for well-formed layouts, an error for pointer loops and out-of-range pointers,      *)
 (* never a crash (sanitizer report, signal) or a hang.                                                           *)
@@ -17,7 +18,7 @@ Judge(ok) == IF ok THEN TRUE ELSE PrintT(<<"BAD", l>>)
 \* counts them and never reports a clean result while there are any)
 EvName == /\ IsEv("Name")
           /\ IF Ev.res = "skipped" THEN PrintT(<<"SKIP", l>>)
-             ELSE Judge(Allowed(AbsClass(Ev.cells, Ev.cut), Ev.res, Ev.name, Ev.end))
+             ELSE Judge(Allowed(AbsClass(Ev.cells, Ev.cut, Ev.start), Ev.res, Ev.name, Ev.end))
 EvReset == IsEv("Reset")
 Next == EvName \/ EvReset
 Spec == Init /\ [][Next]_vars
